@@ -298,6 +298,23 @@ class MatcherAtoms:
                 if key is not None:
                     return (lambda a, k=key: not a[k]) if neg else (lambda a, k=key: a[k])
             return None
+        # <dict>.get(<candidate label>) of a local dict filled together with the label map:
+        #   ... is None      <=>  the label is not assigned yet (the stored values are scores, never None)
+        #   truth value      <=>  assigned AND the stored score is not 0  (a recorded score of exactly 0
+        #                         is possible: ASSD / RVD of a perfect match) - its own atom `zero:<dict>`
+        g = self._dict_get(e)
+        if g is not None:
+            atom, dname = g
+            zk = f"zero:{dname}"
+            form.domains.setdefault(zk, [False, True])
+            return lambda a, atom=atom, zk=zk: bool(a[atom]) and not a[zk]
+        if isinstance(e, ast.Compare) and len(e.ops) == 1 and isinstance(e.ops[0], (ast.Is, ast.IsNot, ast.Eq, ast.NotEq)) and isinstance(e.comparators[0], ast.Constant) and e.comparators[0].value is None:
+            g = self._dict_get(e.left)
+            if g is not None:
+                atom = g[0]
+                if isinstance(e.ops[0], (ast.Is, ast.Eq)):
+                    return lambda a, atom=atom: not a[atom]
+                return lambda a, atom=atom: bool(a[atom])
         # None tests on label / score variables (ints / floats by construction)
         if isinstance(e, ast.Compare) and len(e.ops) == 1 and isinstance(e.ops[0], (ast.Is, ast.IsNot)):
             l, r = e.left, e.comparators[0]
@@ -384,6 +401,23 @@ class MatcherAtoms:
                         self._pin_calls(ex, callee)
                         return self._sub(ex, callee)
             return None
+        return None
+
+    def _dict_get(self, e: ast.expr):
+        """(atom, dict name) if e is (a single-assignment local name for)  D.get(<pred|ref label>)  /
+        D.get(<label>, None)  of a local collection D tracked by tracking_atom."""
+        x = e
+        if isinstance(x, ast.Name):
+            d = single_def(self.f, x.id)
+            if d is None:
+                return None
+            x = d
+        if isinstance(x, ast.Call) and isinstance(x.func, ast.Attribute) and x.func.attr == "get" and isinstance(x.func.value, ast.Name) and 1 <= len(x.args) <= 2 and not x.keywords and isinstance(x.args[0], ast.Name) and x.args[0].id in (self.pred_var, self.ref_var):
+            if len(x.args) == 2 and not (isinstance(x.args[1], ast.Constant) and x.args[1].value is None):
+                return None
+            key = self.tracking_atom(x.func.value.id, x.args[0].id)
+            if key is not None:
+                return key, x.func.value.id
         return None
 
     def tracking_atom(self, coll: str, elem: str) -> Optional[str]:
